@@ -227,7 +227,20 @@ def _noisy_moment_rows(mjm):
   out = np.zeros(mjm.nu, bool)
   for a in range(mjm.nu):
     row = np.abs(np.asarray(d.actuator_moment)[d.moment_rowadr[a] : d.moment_rowadr[a] + d.moment_rownnz[a]])
-    out[a] = bool(row.size and (row < 1e-6 * row.max()).any())
+    out[a] = bool(row.size and (row < 1e-6 * max(float(row.max()), 1.0)).any())  # also a row that vanishes altogether (degenerate crank)
+  return out
+
+
+def _noisy_moment_rows_mjw(mjm):
+  """Same question asked of MJWarp's own moment rows at qpos0 (float32): an entry below 1e-6 of the row's largest one."""
+  m = H.put_model(mjm)
+  d = H.make_data(mjm)
+  mjw.fwd_position(m, d)
+  adr, nnz, val = d.moment_rowadr.numpy()[0], d.moment_rownnz.numpy()[0], d.actuator_moment.numpy()[0]
+  out = np.zeros(mjm.nu, bool)
+  for a in range(mjm.nu):
+    row = np.abs(val[adr[a] : adr[a] + nnz[a]])
+    out[a] = bool(row.size and (row < 1e-6 * max(float(row.max()), 1.0)).any())
   return out
 
 
@@ -351,6 +364,10 @@ def check(case, rec):
         # structurally present but analytically zero moment entry (float32 round-off ~1e-8, e.g. slider-crank / site transmissions) blows
         # the reflected mass up; MuJoCo skips them.  Own class, only for actuators that have such an entry in the reference.
         noisy = _noisy_moment_rows(e)
+        big = np.abs(got[:, 2]) > 10 * np.abs(want[:, 2]) + 1.0
+        if (big & ~noisy).any():
+          # MJWarp's own moment row can hold structural entries MuJoCo's row does not have at all (slider-crank: the crank's parent dof)
+          noisy = noisy | _noisy_moment_rows_mjw(e)
         for a_ in np.nonzero(noisy)[0]:
           if abs(got[a_, 2]) > 10 * abs(want[a_, 2]) + 1.0:
             rec.cls("dampratio:noise-moment-seen")
